@@ -124,6 +124,11 @@ namespace occa {
         // __VA_ARGS__
         const int realArgc = (int) args.size();
         for (int i = argc; i < realArgc; ++i) {
+          // The variable arguments keep the commas between them
+          if (i > argc) {
+            newTokens.push_back(new operatorToken(source->origin,
+                                                  op::comma));
+          }
           expandArg(newTokens, source, args, i);
         }
       }
